@@ -146,8 +146,8 @@ check("C07", "other",
       "On the MIR of the whole CramParser::parse (+ LineParser, ExpectationMaker::parse; regex engine replaced by lib/miniregex.py): for every "
       "template document of <= 4/5 lines (title, blank, comment, command, continuation, expectations with inner/leading/trailing blanks, exit "
       "code; symbolic payload letters) the result is Err or exactly the tests the statement prescribes — command with continuations, "
-      "expectations with indentation removed and other whitespace kept, exit code, line number, title where unambiguous, Cram defaults. One "
-      "genuine finding (output lines before any command are attached to the next command) is recorded. Non-ASCII text and long documents are outside.",
+      "expectations with indentation removed and other whitespace kept, exit code, line number, title where unambiguous, Cram defaults. "
+      "(The finding of this check — output lines before any command were attached to the next command — is fixed in 068e7bb.) Non-ASCII text and long documents are outside.",
       E2_NOTE + " Additionally trusts lib/miniregex.py.", E2_TECH, "E2", "DESIGN.md §3 C07")
 check("C10", "other",
       "Partial: documents whose tests all pass. On the MIR of parse ∘ generate_update for every template Markdown document of <= 4/5 lines (and "
